@@ -2,10 +2,13 @@
 C01 — Coverage: every specified target is probed exactly once per pass.
 Property theorems only (lemmas: `Proofs/Gen.lean`; the iterator facts come from C04).
 
-"Puts on the wire" is closed by C07 (requests → frames written, multiset-preserving) for the packet
-commands and by C08 (requests → Scan calls) for the application commands; this file proves the claim
-at the request stream, for the composition of generators each command actually wires
-(`newIPPortGenerator` mode choice, exclusion filter, ARP-cache stage, chunk loop).
+First the claim at the request stream, for the composition of generators each command actually wires
+(`newIPPortGenerator` mode choice, exclusion filter, ARP-cache stage, chunk loop): `C01_port_scan`,
+`C01_generic`, `C01_ip_scan`.  Then "puts on the wire" as theorems: `C01_wire_*` compose the request-stream
+statement with C05 (every filler's frame reads back to the request's destination) and C07 (the packet pipeline
+hands exactly the frames of the error-free requests to the writer, byte for byte, under every schedule) over the
+embedding `Compose.pipeReqs` of a request list into a pipeline input (Model/Compose.lean; lemmas:
+Proofs/Compose*.lean).
 -/
 import SxVerif.Generated.CyclicGroups
 import SxVerif.Generated.Constants
@@ -13,9 +16,13 @@ import SxVerif.Generated.Problems
 import SxVerif.Spec.Gen
 import SxVerif.Proofs.GenCover
 import SxVerif.Props.C04
+import SxVerif.Props.C07
+import SxVerif.Spec.Compose
+import SxVerif.Proofs.ComposeWire
+import SxVerif.Proofs.ComposeScan
 
 namespace SxVerif.C01
-open SxVerif.Gen SxVerif.Spec.Gen SxVerif.Generated
+open SxVerif.Gen SxVerif.Spec.Gen SxVerif.Generated SxVerif.Compose SxVerif.Spec.Compose
 
 theorem translator_clean : translatorProblems = [] := by decide
 
@@ -64,6 +71,102 @@ theorem C01_ip_scan (s : Spec) (content : List Line) (h : AddrSpecOK s content) 
       ((s.cache = none ∨ ∃ c g, s.cache = some (c, some g)) → ∀ r ∈ rs, r.err = none) :=
   Proofs.Gen.ip_scan_cover cyclicGroups C04.table_ok C04.table_sorted C04.Pmax_value s content h d
 
+/-! ### C01 at the wire (packet commands)
+
+Read as: take any valid specification, any family of iterator draws, any link mode / source addresses the scan
+range provides (`LinkOK`, C17), any filler options in the ranges the flag parsers enforce (`FillerOK`, C18), any
+`math/rand` draws of the fillers in their ranges (`RndOK`, C05_draws), any number `inp.n ≥ 1` of generator
+workers, any receiver errors, any writer failure pattern, and ANY interleaving of the pipeline's goroutines
+(`ReachableNC C07.cfg`) that is not cancelled and has come to its end (all goroutines returned and the error
+stream drained, or `done` closed) — one such observation `PacketRun` per engine run of the pass.  Then the byte
+strings handed to `WritePacketData`, each read with the independent RFC readers of Spec/Fill.lean
+(`probeTarget` / `probeAddr`), give — as a multiset, every frame readable — exactly the probes of the request
+stream; and those are the denoted targets minus exclusions whenever no request can lose its MAC.
+
+Hypotheses that remain, all named: (1) the run ends and is not cancelled (`PacketRunOf`; progress is
+`C07_progress_full`, fairness is the runtime's); (2) `hv4`: the denoted, non-excluded targets are IPv4 addresses —
+a theorem for subnet sources (`C01_wire_subnet_ipv4`), a condition on the file's content otherwise (a non-IPv4
+line is a `Fill` error, not a probe); (3) `hmac`: on an Ethernet link the IP probes pass through the ARP-cache
+stage; a target with neither a cache entry nor a gateway MAC becomes a `noMAC` ERROR request, which is not a
+probe (first conclusion: frames ≈ `probes`), and with a gateway MAC or in VPN mode there is none (second
+conclusion: frames ≈ denoted − excluded); (4) "handed to the writer" is "on the wire" for the writes that did
+not fail: `C01_wire_no_write_failure`. -/
+
+/-- **C01 at the wire for tcp (syn/fin/null/xmas/flags) and udp**: over all engine runs of one pass (one per
+    chunk of port ranges), the (destination address, destination port) pairs read off the frames handed to the
+    writer are, with multiplicity, the probes of the pass — none missing, none extra, none repeated, none
+    unreadable. -/
+theorem C01_wire_port_scan (l : Link) (hl : LinkOK l) (fl : Filler) (hfl : FillerOK fl)
+    (hk : (∃ f, fl = .tcp f) ∨ ∃ o, fl = .udp o)
+    (s : Spec) (content : List Line) (h : PairSpecOK s content)
+    (hv4 : ∀ ap ∈ expectedPairs s content, IsIPv4 ap.1)
+    (hmac : l.vpn = false → s.cache.isSome = true) (dp di : Nat → Draws) :
+    ∃ rss : List (List Req),
+      portScanRuns cyclicGroups s chunkSize emptyRunsOnce dp di = rss.map Except.ok ∧
+      (targets rss.flatten).Perm (wanted s content) ∧
+      (∀ r ∈ rss.flatten, r.err = none ∨ r.err = some .noMAC) ∧
+      ∀ obs : List PacketRun, List.Forall₂ (PacketRunOf C07.cfg l fl) rss obs →
+        (obs.flatMap (fun o => (handed o.st).map (probeTarget l.vpn fl))).Perm
+          ((probes rss.flatten).map (fun ap => some (addrVal ap.1, ap.2))) ∧
+        ((s.cache = none ∨ ∃ c g, s.cache = some (c, some g)) →
+          (obs.flatMap (fun o => (handed o.st).map (probeTarget l.vpn fl))).Perm
+            ((expectedPairs s content).map (fun ap => some (addrVal ap.1, ap.2)))) :=
+  Proofs.Compose.wire_port_scan cyclicGroups C04.table_ok C04.table_sorted C04.Pmax_value chunkSize emptyRunsOnce
+    chunk_facts.1 chunk_facts.2 (Pipe.wf_of_sideConds C07.side_conditions) l hl fl hfl hk s content h hv4 hmac dp di
+
+/-- **C01 at the wire for icmp and arp** (port-less, one engine run): the destination addresses read off the
+    frames handed to the writer (RFC 791 destination / RFC 826 target protocol address) are, with
+    multiplicity, the probes of the pass.  `arp` runs on an Ethernet link without ARP-cache stage (`s.cache =
+    none`: every denoted, non-excluded address is probed); `icmp` is an IP probe and needs the stage there. -/
+theorem C01_wire_ip_scan (l : Link) (hl : LinkOK l) (fl : Filler) (hfl : FillerOK fl)
+    (hk : (∃ o t c, fl = .icmp o t c) ∨ (fl = .arp ∧ l.vpn = false))
+    (s : Spec) (content : List Line) (h : AddrSpecOK s content)
+    (hv4 : ∀ a ∈ expectedAddrs s content, IsIPv4 a)
+    (hmac : fl ≠ .arp → l.vpn = false → s.cache.isSome = true) (d : Nat × Nat) :
+    ∃ rs : List Req, ipRequests cyclicGroups s d = .ok rs ∧
+      (rs.map (·.dst)).Perm ((expectedAddrs s content).map some) ∧
+      (∀ r ∈ rs, r.err = none ∨ r.err = some .noMAC) ∧
+      ∀ o : PacketRun, PacketRunOf C07.cfg l fl rs o →
+        ((handed o.st).map (probeAddr l.vpn fl)).Perm ((probes rs).map (fun ap => some (addrVal ap.1))) ∧
+        ((s.cache = none ∨ ∃ c g, s.cache = some (c, some g)) →
+          ((handed o.st).map (probeAddr l.vpn fl)).Perm
+            ((expectedAddrs s content).map (fun a => some (addrVal a)))) :=
+  Proofs.Compose.wire_ip_scan cyclicGroups C04.table_ok C04.table_sorted C04.Pmax_value
+    (Pipe.wf_of_sideConds C07.side_conditions) l hl fl hfl hk s content h hv4 hmac d
+
+/-- hypothesis `hv4` is a theorem when the target is a subnet: every address a valid subnet denotes is IPv4 -/
+theorem C01_wire_subnet_ipv4 (s : Spec) (content : List Line) (net : Option Net) (hs : s.src = .subnet net) :
+    (PairSpecOK s content → ∀ ap ∈ expectedPairs s content, IsIPv4 ap.1) ∧
+    (AddrSpecOK s content → ∀ a ∈ expectedAddrs s content, IsIPv4 a) :=
+  ⟨fun h ap hap => Proofs.Compose.subnet_pairs_ipv4 s content h net hs ap (List.mem_filter.mp hap).1,
+   fun h a ha => Proofs.Compose.subnet_addrs_ipv4 s content h net hs a (List.mem_filter.mp ha).1⟩
+
+/-- without write failures, handed to the writer = on the wire, and the writer contributes no error record -/
+theorem C01_wire_no_write_failure (st : Pipe.Sys) (h : ∀ w ∈ st.written, w.2 = false) :
+    onWire st = handed st ∧ Pipe.writeErrs st.written = [] :=
+  Proofs.Compose.no_write_failure st h
+
+/-! ### C01 at the `Scan` calls (application commands) -/
+
+/-- **C01 for socks / docker / elastic, at the scanner**: for every valid specification and all draws the single
+    engine run starts, its request stream has no error entry, and for the generic engine (`Model/Engine.lean`)
+    started on the embedding of that stream (`Compose.engReqs`: identity = position, `Scan`'s answers an
+    arbitrary oracle `orc`) with ANY number of workers `c.W ≥ 1`, any capacities and exit delay, in EVERY state
+    reachable under ANY interleaving without Ctrl-C: the targets handed to `Scan` so far (each `Scan` call
+    looked up by the identity of its request, `targetAt`) are a sub-multiset of the denoted (address, port)
+    multiset minus exclusions — none extra, none repeated, at every moment — and once `done` is closed they
+    are exactly that multiset — none missing (C08_scan_once / C08_complete composed with C01_generic).
+    Remaining hypotheses: the run is not interrupted (`cmdCtx = false`) and reaches `done` (progress: C12). -/
+theorem C01_scan_targets (s : Spec) (content : List Line) (h : PairSpecOK s content) (dp di : Draws) :
+    ∃ rs, genericRun cyclicGroups s dp di = .ok rs ∧ (probes rs).Perm (expectedPairs s content) ∧
+      (∀ r ∈ rs, r.err = none) ∧
+      ∀ (c : Engine.Cfg) (orc : Nat → Engine.Outcome) (st : Engine.Sys), 0 < c.W →
+        Engine.Reachable c (Engine.init (engReqs orc rs) []) st → st.cmdCtx = false →
+        ((st.scans.map (fun e => targetAt rs e.id)).Subperm ((expectedPairs s content).map some)) ∧
+        (st.doneClosed = true →
+          (st.scans.map (fun e => targetAt rs e.id)).Perm ((expectedPairs s content).map some)) :=
+  Proofs.Compose.scan_targets cyclicGroups C04.table_ok C04.table_sorted C04.Pmax_value s content h dp di
+
 /-- the chunk loop neither loses nor repeats a range: the chunks concatenate to the range list, each
     has between 1 and `chunkSize` ranges (or it is the single empty chunk of a pairs-file scan) -/
 theorem C01_chunks (ports : List PortRange) :
@@ -78,5 +181,55 @@ example : PairSpecOK
       ports := [⟨22, 23⟩, ⟨80, 80⟩], excl := some [(167772161, 32)], cache := none } [] :=
   ⟨by intro r hr; simp at hr; rcases hr with rfl | rfl <;> decide,
    ⟨⟨_, rfl, by unfold NetOK; decide⟩, by decide⟩⟩
+
+-- the hypotheses of the wire theorems are satisfiable: an Ethernet link, a VPN link, filler options, draws
+example : LinkOK { vpn := false, srcIP := [10, 0, 0, 1], srcMAC := [2, 0, 0, 0, 0, 1] } := ⟨rfl, fun _ => rfl⟩
+example : LinkOK { vpn := true, srcIP := [10, 0, 0, 1], srcMAC := [] } := ⟨rfl, fun h => by cases h⟩
+example : FillerOK (.tcp 2) ∧ FillerOK (.udp { ttl := 64, len := 0, proto := 17, flags := 2, payload := [1, 2, 3], vpn := false }) ∧
+    FillerOK (.icmp { ttl := 64, len := 0, proto := 1, flags := 2, payload := [], vpn := false } 8 0) ∧ FillerOK .arp := by
+  simp [FillerOK]
+example : RndOK { ipId := 52054, sport := 18705, seq := 1905190105, icmpId := 7 } := by simp [RndOK]
+-- the embedding on a probe, an error request and a probe the filler refuses (no MAC on an Ethernet link), and the
+-- reader on the first frame: 10.0.0.2 port 443 (test, labelled as such)
+example : (pipeReqs { vpn := true, srcIP := [10, 0, 0, 1], srcMAC := [] } (.tcp 2) (fun _ => ⟨1, 2, 3, 4⟩)
+      [{ dst := some (.v4 167772162 true), port := 443 }, { err := some .ip }]).map (·.kind) = [.ok, .reqErr] ∧
+    (pipeReqs { vpn := false, srcIP := [10, 0, 0, 1], srcMAC := [2, 0, 0, 0, 0, 1] } (.tcp 2) (fun _ => ⟨1, 2, 3, 4⟩)
+      [{ dst := some (.v4 167772162 false), port := 443 }]).map (·.kind) = [.fillErr] ∧
+    (pipeReqs { vpn := true, srcIP := [10, 0, 0, 1], srcMAC := [] } (.tcp 2) (fun _ => ⟨1, 2, 3, 4⟩)
+      [{ dst := some (.v4 167772162 true), port := 443 }]).map (fun q => probeTarget true (.tcp 2) q.frame)
+      = [some (167772162, 443)] := by decide
+
+/-! a complete engine run of the packet pipeline as the wire theorems quantify over it (`PacketRunOf` is
+    satisfiable): VPN link, `tcp syn`, the stream [probe of 10.0.0.2:443, error request], one worker, no failures;
+    the trace is accepted by the step function of the CURRENT topology, ends terminated, and the one frame handed
+    to the writer reads back as 10.0.0.2:443 (tests, labelled as such) -/
+def exLink : Link := { vpn := true, srcIP := [10, 0, 0, 1], srcMAC := [] }
+def exRnd : Nat → Rnd := fun _ => ⟨1, 2, 3, 4⟩
+def exRs : List Req := [{ dst := some (.v4 167772162 false), port := 443 }, { err := some .ip }]
+def exInp : Pipe.Input :=
+  { n := 1, reqs := pipeReqs exLink (.tcp 2) exRnd exRs, rcvErrs := [], wfail := fun _ _ => false }
+def exEvs : List Pipe.Event :=
+  [.envSend, .envSend, .envClose, .worker 0 .recv, .worker 0 (.get 0), .worker 0 .fill, .worker 0 .send,
+   .worker 0 .recv, .worker 0 .send, .worker 0 .recv, .worker 0 .close,
+   .mux 0 .recv, .mux 0 .send, .mux 0 .recv, .mux 0 .send, .mux 0 .recv, .mux 0 .done, .closer .wait, .closer .close,
+   .sender .recv, .sender .call, .sender .call, .sender .recv, .sender .report, .sender .recv, .sender .close1,
+   .sender .close2, .rcvClose, .emux false .recv, .emux false .send, .emux false .recv, .emux false .done,
+   .emux true .recv, .emux true .done, .ecloser .wait, .ecloser .close, .consume]
+def exSt : Pipe.Sys := (Pipe.run C07.cfg exInp (Pipe.init exInp) exEvs).getD (Pipe.init exInp)
+
+example : (Pipe.run C07.cfg exInp (Pipe.init exInp) exEvs).isSome = true ∧ (∀ e ∈ exEvs, e ≠ Pipe.Event.cancel) ∧
+    Pipe.Terminated exSt ∧ (∀ w ∈ exSt.written, w.2 = false) ∧
+    (handed exSt).map (probeTarget true (.tcp 2)) = [some (167772162, 443)] ∧
+    reqCauses exRs exSt.errsOut = [some Cause.ip] := by decide
+
+example : PacketRunOf C07.cfg exLink (.tcp 2) exRs ⟨exRnd, exInp, exSt⟩ :=
+  ⟨fun _ => by simp [RndOK, exRnd], rfl, by decide,
+   Proofs.Compose.reachableNC_run exEvs _ _ (by decide) .init (by
+     have h : (Pipe.run C07.cfg exInp (Pipe.init exInp) exEvs).isSome = true := by decide
+     unfold exSt
+     cases hr : Pipe.run C07.cfg exInp (Pipe.init exInp) exEvs with
+     | none => simp [hr] at h
+     | some s => rfl),
+   Or.inl (by decide)⟩
 
 end SxVerif.C01
